@@ -118,7 +118,36 @@ def evaluate(name, props):
     print("%s target=%s fired=%s harness_errors=%s" % (name, target, fired, meta["checks_run"]["harness_errors"]))
 
 
+def recheck(name):
+    """Re-run only the target property's quick check on the seeded change (after harness changes)."""
+    d = os.path.join(SEEDED, name)
+    meta = json.load(open(os.path.join(d, "meta.json")))
+    target = meta.get("property", name[:3])
+    rc, out = sh("git -C /repo status --porcelain")
+    if out.strip():
+        print("refusing: /repo working tree is not clean")
+        return
+    rc, out = sh(["git", "-C", "/repo", "apply", os.path.join(d, "patch.diff")])
+    if rc != 0:
+        print(name, "patch does not apply")
+        return
+    try:
+        env = dict(ENV, VERIF_EVIDENCE_DIR="/verif/target/seeded_evidence", VERIF_REPLAY_DIR="/verif/target/seeded_replays")
+        rc, out = sh(["/verif/bin/check", target, "quick"], cwd="/verif", env=env)
+    finally:
+        sh("git -C /repo checkout -- .")
+    first = next((l.strip() for l in out.splitlines() if l.startswith("  [")), "")
+    head = sh("git -C /verif rev-parse --short HEAD")[1].strip()
+    meta["recheck_target_only"] = {"verif_commit": head, "target": target, "exit": rc, "fired": rc == 1, "first": first[:300]}
+    json.dump(meta, open(os.path.join(d, "meta.json"), "w"), indent=1, ensure_ascii=False)
+    print("%s target=%s exit=%s %s" % (name, target, rc, "FIRED" if rc == 1 else "**MISSED**"))
+
+
 if __name__ == "__main__":
+    if sys.argv[1] == "recheck":
+        for n in sys.argv[2:]:
+            recheck(n)
+        sys.exit(0)
     if sys.argv[1] == "verify":
         sys.exit(0 if verify(sys.argv[2], sys.argv[3], sys.argv[4]) else 1)
     elif sys.argv[1] == "eval":
